@@ -1735,7 +1735,8 @@ def fe_isar(case):
                "var": '<dimension isVariableSize="true"/>',
                "varsize": '<dimension size="%d" isVariableSize="true"/>' % m["n"],
                "varsize2": '<dimension size="%d+1" size2="1+%d" isVariableSize="true"/>' % (m["n"] - 1, m["aux"] - 1),
-               "varnamed": '<dimension isVariableSize="true" variableSizeFieldName="cnt_%s" variableSizeFieldType="u8"/>' % m["nm"],
+               "varnamed": '<dimension isVariableSize="true" variableSizeFieldName="cnt_%s" variableSizeFieldType="u%d"/>'
+                           % (m["nm"], 8 * (m["aux"] or 1)),
                "at": '<dimension variableSizeFieldName="@f1"/>',
                "this": '<dimension size="THIS_IS_VARIABLE_SIZE_ARRAY"/>',
                }[m["dim"]]
